@@ -3,6 +3,7 @@
   `Simplified` and has the projection of the input; and a `Simplified` graph is a fixed point.
 -/
 import Y0.Lemmas.LatentRules
+import Y0.Lemmas.LatentKahn
 
 namespace Y0.LV
 
@@ -36,6 +37,55 @@ theorem simplify_spec (prime : Nat → Nat) (hp : ∀ n, n < prime n) (D : LV) (
           simp only [h1, h2, h3, h4, bind, Except.bind, pure, Except.pure, Except.ok.injEq] at h
           subst h
           exact ⟨w4, e4 ▸ acyclic_removeNodes D3 rs a3, simp4, ((s1.trans s2).trans s3).trans s4⟩
+
+/-! ### totality: on a well-formed acyclic LV-DAG no rule raises -/
+
+theorem iterLatents_total (D : LV) (hw : D.WF) (ha : D.Acyclic) : ∃ ls, D.iterLatents = .ok ls := by
+  have hwG : D.asMG.WF :=
+    ⟨hw.nodes_nodup, hw.edges_nodup, hw.edge_mem, by intro e he; simp [asMG] at he⟩
+  obtain ⟨o, ho⟩ := MG.topologicalSort_total D.asMG hwG ha
+  unfold iterLatents
+  simp only [ho, hw.tagged, bind, Except.bind, pure, Except.pure]
+  simp
+
+theorem removeWidowsLoop_total :
+    ∀ (fuel : Nat) (D : LV) (acc : List Nat), D.WF → D.Acyclic →
+      ∃ r, removeWidowsLoop fuel D acc = .ok r := by
+  intro fuel
+  induction fuel with
+  | zero => intro D acc _ _; exact ⟨_, rfl⟩
+  | succ n ih =>
+    intro D acc hw ha
+    obtain ⟨ls, hls⟩ := iterLatents_total D hw ha
+    have hws : D.widows = .ok (ls.filter (fun v => (D.children v).isEmpty)) := by
+      unfold widows; simp only [hls, bind, Except.bind, pure, Except.pure]
+    simp only [removeWidowsLoop, hws, bind, Except.bind, pure, Except.pure]
+    split
+    · exact ⟨_, rfl⟩
+    · exact ih _ _ (wf_removeNodes D _ hw) (acyclic_removeNodes D _ ha)
+
+/-- **`simplify_latent_dag` never raises on a well-formed acyclic LV-DAG** -/
+theorem simplify_total' (prime : Nat → Nat) (hp : ∀ n, n < prime n) (D : LV) (hw : D.WF) (ha : D.Acyclic) :
+    ∃ r, D.simplify prime = .ok r := by
+  obtain ⟨ls, hls⟩ := iterLatents_total D hw ha
+  have h1 : D.transformLatentsWithParents prime = .ok (ls.foldl (transformStep prime) D) := by
+    unfold transformLatentsWithParents; simp only [hls, bind, Except.bind, pure, Except.pure]
+  obtain ⟨w1, a1, _, n1⟩ := transform_spec prime hp D _ hw ha h1
+  obtain ⟨⟨D2, ws⟩, h2⟩ := removeWidowsLoop_total ((ls.foldl (transformStep prime) D).nodes.length + 1) _ [] w1 a1
+  have h2' : (ls.foldl (transformStep prime) D).removeWidowLatents = .ok (D2, ws) := h2
+  obtain ⟨w2, a2, _, f2, c2⟩ := removeWidowLatents_spec _ D2 ws h2' w1 a1 n1
+  obtain ⟨ls2, hls2⟩ := iterLatents_total D2 w2 a2
+  have h3 : D2.removeUnidirectionalLatents =
+      .ok (D2.removeNodes (ls2.filter (fun v => (D2.children v).length = 1)),
+        ls2.filter (fun v => (D2.children v).length = 1)) := by
+    unfold removeUnidirectionalLatents unidirectional
+    simp only [hls2, bind, Except.bind, pure, Except.pure]
+  have w3 := wf_removeNodes D2 (ls2.filter (fun v => (D2.children v).length = 1)) w2
+  have a3 := acyclic_removeNodes D2 (ls2.filter (fun v => (D2.children v).length = 1)) a2
+  obtain ⟨ls3, hls3⟩ := iterLatents_total _ w3 a3
+  unfold simplify
+  simp only [h1, h2', h3, bind, Except.bind, pure, Except.pure, removeRedundantLatents, redundant, hls3]
+  exact ⟨_, rfl⟩
 
 /-! ### a simplified graph is a fixed point of every rule -/
 
